@@ -381,6 +381,10 @@ Inductive pred :=
 | PFieldsEq (cts : list string) (k1 k2 : string)        (* SVA310, 320 *)
 | PMatchProc (cts : list string) (s : side) (ks : list string).  (* SVA301, 311, 321 *)
 
+Fixpoint chars (s : string) : list string :=
+  match s with EmptyString => [] | String c r => String c EmptyString :: chars r end.
+Definition as_items (x : mval) : list string := match x with ML l => l | MS s => chars s end.
+
 Definition ctype_in (cts : list string) (m : md) : bool :=
   match lookup "component_type" m with Some (MS s) => mem s cts | _ => false end.
 
@@ -400,8 +404,9 @@ Definition check (r : pred) (v : cview) : bool :=
   | PUniqueList k =>
       match lookup k m with None => true | Some (ML l) => nodupb l | Some (MS _) => false end
   | PNoOverlap a b =>
+      (* set(md[a]) & set(md[b]): a string value iterates as its characters *)
       match lookup a m, lookup b m with
-      | Some (ML la), Some (ML lb) => negb (existsb (fun x => mem x lb) la)
+      | Some xa, Some xb => negb (existsb (fun x => mem x (as_items xb)) (as_items xa))
       | _, _ => true
       end
   | PRegistered =>
